@@ -272,6 +272,7 @@ func raceSolvers(file string, timeoutS int, all bool) SolverResult {
 	}
 	res := SolverResult{Status: "unknown", Answers: map[string]string{}}
 	got := 0
+	definitive := 0
 	t0 := time.Now()
 	for got < len(solvers) {
 		x := <-ch
@@ -285,7 +286,9 @@ func raceSolvers(file string, timeoutS int, all bool) SolverResult {
 			} else {
 				res.Status, res.Solver, res.TimeS, res.Output = x.status, x.name, x.secs, x.out
 			}
-			if !all {
+			definitive++
+			if !all || definitive >= 2 {
+				// quick: first answer; thorough: two solvers must agree
 				cancel()
 			}
 		} else if res.Status == "unknown" && x.status != "cancelled" {
